@@ -105,7 +105,7 @@ def post_fftrange(token, args, kwargs, result):
     n = int(n)
     CTX.observe('fftrange.origin')
     ref = np.arange(n) - n // 2
-    if result.shape != (n,) or not np.array_equal(np.asarray(result, dtype=float), ref.astype(float)):
+    if result.shape != (n,) or not np.array_equal(np.asarray(result), ref.astype(np.asarray(result).dtype)):
         CTX.violation(f'C04/fftrange/{parity(n)}', 'fftrange(n) != arange(n) - n//2', {'fn': 'fftrange', 'n': n})
 
 
@@ -155,6 +155,12 @@ def post_forward_ft_unit(token, args, kwargs, result):
         CTX.violation(f'C04/forward_ft_unit/no-exact-zero/{parity(n)}/shift={shift}', 'frequency axis has no exact zero at the origin index', desc)
     elif not np.allclose(result, ref, rtol=16 * eps, atol=0):
         CTX.violation(f'C04/forward_ft_unit/spacing/{parity(n)}/shift={shift}', 'frequency axis is not (arange(n)-n//2)/(n dx)', desc)
+
+
+def install_monitors(ctx):
+    global CTX
+    CTX = ctx
+    install()
 
 
 def install():
